@@ -364,7 +364,8 @@ RulesEndSession(a, o) ==
   \* kind multiaud: a validly signed hint whose audience also lists a second client (azp = the client it was issued to)
   LET h == a.hint
       foreignTenant == cfg.dyn /\ a.host = "B"          \* the hint names another issuer than the one the request is addressed to
-      hintOK == h.kind \in {"valid", "expired", "multiaud"} /\ Has(idts, h.id) /\ ~foreignTenant
+      \* futureiat / noiat: validly signed hints whose iat lies ahead of the provider's clock or is missing (tolerated like an expired hint)
+      hintOK == h.kind \in {"valid", "expired", "multiaud", "futureiat", "noiat"} /\ Has(idts, h.id) /\ ~foreignTenant
       proven == IF h.kind # "none" THEN (IF hintOK THEN idts[h.id].client ELSE "none")
                 ELSE IF a.client \in Clients THEN a.client ELSE "none"
       registered == proven \in Clients /\ a.uri \in Reg[proven].postLogout IN
@@ -377,6 +378,8 @@ RulesEndSession(a, o) ==
                              /\ (a.uri = "" \/ registered)) => o.class = "redirect">>,
     <<"C18.contradiction", (hintOK /\ a.client # "" /\ a.client # idts[h.id].client) => o.class # "redirect">>,
     <<"C18.session", (o.class = "redirect" /\ hintOK) => (o.sub = idts[h.id].sub /\ o.req = idts[h.id].client)>>,
+    \* C08 "logout takes effect everywhere": an accepted logout terminates the session of the hint's subject and client at the storage
+    <<"C08.logout.session", (o.class = "redirect" /\ hintOK) => (o.sub = idts[h.id].sub /\ o.req = idts[h.id].client)>>,
     <<"C18.state", (o.class = "redirect") => o.state = a.state>> }
 
 Rules(e) ==
